@@ -1,5 +1,16 @@
 from vcommon import Suite
 from upload_common import rewrite_upload_fault
+from C03 import SPEC as _C03, rewrite_counter_imports
+
+# The in-process half of "no memory fault": the lock-step suite of C03 (real Counter.Add / releaseLock / lookup /
+# rotate1 / newCounter1 under the deterministic scheduler against Model/CounterConc), run here with its fault
+# oracles: an access through a closed mapping by a call that entered its section after the close is a violation.
+CONC_FAULT = Suite(
+    name="conc", harness="vh_conc", runner="conc", model_deps=["theories/Model/CounterConc.vo"],
+    quick_n=150, thorough_n=3000, rewrite=rewrite_counter_imports, tags="verif,verifconc",
+    rule=_C03["suites"][0].rule + " (C05 runs fewer random scenarios than C03 and the same systematic schedules; its "
+         "interest here are the oracles panic, hang and entered-through-closed-mapping, and the scenario `grow` in "
+         "which the lookup of a lock holder extends the file itself.)")
 
 
 def rewrite_counter_for_faults(dst):
@@ -80,7 +91,7 @@ SPEC = {
     "title": "Telemetry failures never crash, hang or block the host program",
     "design_ref": "DESIGN.md section 7, C05",
     # the counter-file half and the uploader half
-    "suites": [FAULT_FILE, FAULT_UPLOAD],
+    "suites": [FAULT_FILE, FAULT_UPLOAD, CONC_FAULT],
     "technique": "Coq proofs over a byte-level model of one process on an ARBITRARY file (totality with explicit fuel "
                  "bounds, frame rule, computed counterexamples for the unguarded variants) and over a fault-plan "
                  "model of the open / extend call sequences (for every plan); differential execution of the "
